@@ -227,7 +227,7 @@ func (g *graphMemoizer) Objects(ctx context.Context, s *node.Node, p *predicate.
 	}
 	wg.Wait()
 	g.mu.Lock()
-	if g.version == version {
+	if err == nil && g.version == version {
 		g.memO[k] = mobjs
 	}
 	g.mu.Unlock()
@@ -303,7 +303,7 @@ func (g *graphMemoizer) Subjects(ctx context.Context, p *predicate.Predicate, o 
 	}
 	wg.Wait()
 	g.mu.Lock()
-	if g.version == version {
+	if err == nil && g.version == version {
 		g.memN[k] = msubs
 	}
 	g.mu.Unlock()
@@ -369,7 +369,7 @@ func (g *graphMemoizer) PredicatesForSubject(ctx context.Context, s *node.Node, 
 	}
 	wg.Wait()
 	g.mu.Lock()
-	if g.version == version {
+	if err == nil && g.version == version {
 		g.memP[k] = mpreds
 	}
 	g.mu.Unlock()
@@ -435,7 +435,7 @@ func (g *graphMemoizer) PredicatesForObject(ctx context.Context, o *triple.Objec
 	}
 	wg.Wait()
 	g.mu.Lock()
-	if g.version == version {
+	if err == nil && g.version == version {
 		g.memP[k] = mpreds
 	}
 	g.mu.Unlock()
@@ -501,7 +501,7 @@ func (g *graphMemoizer) PredicatesForSubjectAndObject(ctx context.Context, s *no
 	}
 	wg.Wait()
 	g.mu.Lock()
-	if g.version == version {
+	if err == nil && g.version == version {
 		g.memP[k] = mpreds
 	}
 	g.mu.Unlock()
@@ -567,7 +567,7 @@ func (g *graphMemoizer) TriplesForSubject(ctx context.Context, s *node.Node, lo 
 	}
 	wg.Wait()
 	g.mu.Lock()
-	if g.version == version {
+	if err == nil && g.version == version {
 		g.memT[k] = mts
 	}
 	g.mu.Unlock()
@@ -633,7 +633,7 @@ func (g *graphMemoizer) TriplesForPredicate(ctx context.Context, p *predicate.Pr
 	}
 	wg.Wait()
 	g.mu.Lock()
-	if g.version == version {
+	if err == nil && g.version == version {
 		g.memT[k] = mts
 	}
 	g.mu.Unlock()
@@ -699,7 +699,7 @@ func (g *graphMemoizer) TriplesForObject(ctx context.Context, o *triple.Object, 
 	}
 	wg.Wait()
 	g.mu.Lock()
-	if g.version == version {
+	if err == nil && g.version == version {
 		g.memT[k] = mts
 	}
 	g.mu.Unlock()
@@ -765,7 +765,7 @@ func (g *graphMemoizer) TriplesForSubjectAndPredicate(ctx context.Context, s *no
 	}
 	wg.Wait()
 	g.mu.Lock()
-	if g.version == version {
+	if err == nil && g.version == version {
 		g.memT[k] = mts
 	}
 	g.mu.Unlock()
@@ -831,7 +831,7 @@ func (g *graphMemoizer) TriplesForPredicateAndObject(ctx context.Context, p *pre
 	}
 	wg.Wait()
 	g.mu.Lock()
-	if g.version == version {
+	if err == nil && g.version == version {
 		g.memT[k] = mts
 	}
 	g.mu.Unlock()
@@ -915,7 +915,7 @@ func (g *graphMemoizer) Triples(ctx context.Context, lo *storage.LookupOptions, 
 	}
 	wg.Wait()
 	g.mu.Lock()
-	if g.version == version {
+	if err == nil && g.version == version {
 		g.memT[k] = mts
 	}
 	g.mu.Unlock()
